@@ -107,6 +107,51 @@ def check_case(case):
     return probs
 
 
+def generator_limit_child(acc):
+    """the generator's own size limit (16 MiB of command words = 2^22 words): streams of exactly 2^22 - 1, 2^22 and 2^22 + 1 words are produced by
+    pre-filling the real CommandStreamEmitter with filler words before a real operation is generated through the public API (the emitter is
+    wrapped inside this process only); the first must be accepted, the others rejected with a VelaError"""
+    core.bind_repo(need_codec=False)
+    from ethosu.vela import api
+    from ethosu.vela import register_command_stream_generator as G
+    from ethosu.vela.errors import VelaError
+
+    from ..npu import oplists
+
+    ae = _npu_acc(api, acc)
+    op = oplists.build_op(api, oplists.dma_spec(0, 0x100, 1, 0x4000, 256), ae)
+    base = len(api.npu_generate_register_command_stream([op], ae))
+    probs = []
+    orig_init = G.CommandStreamEmitter.__init__
+    LIMIT = 1 << 22
+    try:
+        for total in (LIMIT - 1, LIMIT, LIMIT + 1):
+            fill = total - base
+
+            def init(self, _fill=fill):
+                orig_init(self)
+                self.cmd_stream.append(tuple([0x00100000] * _fill))
+                self.offset += _fill * G.CommandStreamEmitter.WORD_SIZE if hasattr(self, "offset") else 0
+
+            G.CommandStreamEmitter.__init__ = init
+            try:
+                words = api.npu_generate_register_command_stream([op], ae)
+                accepted = len(words)
+            except VelaError:
+                accepted = None
+            finally:
+                G.CommandStreamEmitter.__init__ = orig_init
+            if total >= LIMIT and accepted is not None:
+                probs.append("generator accepted a command stream of %d words = %d bytes (hardware limit: below 16 MiB)" % (accepted, 4 * accepted))
+            if total < LIMIT and accepted is None:
+                probs.append("generator rejected a command stream of %d words (below the 16 MiB limit)" % total)
+            if accepted is not None and accepted != total:
+                probs.append("harness: expected %d words, generator returned %d" % (total, accepted))
+    finally:
+        G.CommandStreamEmitter.__init__ = orig_init
+    return probs
+
+
 def _shard(args):
     acc, lens, salt = args
     out = []
@@ -148,6 +193,11 @@ def _history_shard(seqs):
 
 
 def replay(ctx, case):
+    if case.get("genlimit"):
+        from .. import isolate
+
+        res, _ = isolate.run_forked(generator_limit_child, (case["acc"],), timeout=600)
+        return list(res[1]) if res[0] == "ok" else ["limit probe did not finish: %s" % (res[:3],)]
     if "cfg" in case:
         from .. import netrun
 
@@ -194,6 +244,17 @@ def run(ctx):
             # shortest failing suffix pair identifies the failure
             ctx.violation("history|%s" % ">".join(seq[-2:]) + "|" + probs[0].split(": ", 1)[-1][:50], "; ".join(probs[:3]), dict(seq=seq))
     evals += nh
+    # the generator's own limit (16 MiB of command words), at the three lengths around it
+    from .. import isolate
+
+    for acc in (("ethos-u55-128", "ethos-u65-512") if ctx.tier == "quick" else ACCS):
+        res, _ = isolate.run_forked(generator_limit_child, (acc,), timeout=600)
+        evals += 3
+        if res[0] != "ok":
+            ctx.violation("generator-limit|%s|harness" % acc, "limit probe did not finish: %s" % (res[:3],), dict(genlimit=True, acc=acc))
+            continue
+        for p_ in res[1]:
+            ctx.violation("generator-limit|%s|%s" % (acc, p_.split(" a command")[0][:40]), p_, dict(genlimit=True, acc=acc))
     # net part: the command-stream tensor of every Ethos-U operator of every compiled network, as stored in the output file
     from .. import netrun
     from ..tfl import nets
